@@ -45,8 +45,12 @@ def _strip_ids(sn):
 def address_taint_hook(node, v, rec):
     """The text of a stringified function embeds a memory address; once a program has produced such a text (and may
     reverse, slice or sort it) the outcomes of two universes differ for reasons that are no property's business."""
-    if type(v) is str and ' at 0x' in v:
-        rec.tainted = True
+    if type(v) is str:
+        if len(v) > 3000000:
+            from .seams import RunTooBig
+            raise RunTooBig('a node evaluation returned a string of %d characters' % len(v))
+        if ' at 0x' in v:
+            rec.tainted = True
 
 
 # ---------------------------------------------------------------- C02: plain-data type walk of every node result
